@@ -503,3 +503,178 @@ def aux_functions():
         out.append(Extracted(name, hdr, body, r, AUX_H, X.find_loops(body)))
     rk = free_function("src/core/fitsio.cpp", "reservedFitsKeyword")
     return [rk] + out
+
+# ---------------------------------------------------------------------------
+# FITS reader / writer / size model (fitsio.h, fitsio.cpp, ~splinetable in splinetable.h): extraction for exact execution
+# against a model of cfitsio supplied by the interpreter's hooks (assumed contract, cross-checked natively) - C07, C19, C06
+FITSIO_H = "include/photospline/detail/fitsio.h"
+FITSIO_CPP = "src/core/fitsio.cpp"
+SPLINETABLE_H = "include/photospline/splinetable.h"
+
+def cfitsio_constants():
+    """the numeric constants the extracted code uses are read from the installed cfitsio header on every run"""
+    h = X.read("/usr/include/fitsio.h"); out = {}
+    for n in ("FLEN_KEYWORD", "FLEN_VALUE", "FLEN_CARD", "TSTRING", "TUINT", "TINT", "TFLOAT", "TDOUBLE", "FLOAT_IMG", "DOUBLE_IMG", "IMAGE_HDU", "READONLY"):
+        m = re.search(r"#define\s+%s\s+(-?\d+)" % n, h)
+        if not m: raise ExtractionError("cfitsio constant %s not found in /usr/include/fitsio.h" % n)
+        out[n] = int(m.group(1))
+    return out
+
+def fits_prelude():
+    c = cfitsio_constants()
+    return ('#include <stdint.h>\n#include <stddef.h>\n#include <stdbool.h>\n#include <limits.h>\n' + "".join("#define %s %d\n" % kv for kv in sorted(c.items())) + r'''
+typedef long fitsfile;                       /* opaque: only passed through to the cfitsio model */
+typedef double* double_ptr; typedef char* char_ptr; typedef char_ptr* char_ptr_ptr; typedef char_ptr_ptr* char_ptr_ptr_ptr;
+/* members of splinetable<Alloc> (R1) */
+uint32_t ndim; uint32_t* order; double** knots; uint64_t* nknots; double** extents; double* periods; float* coefficients; uint64_t* naxes; uint64_t* strides; uint32_t naux; char_ptr_ptr_ptr aux;
+uint64_t** const vp_this_naxes_p = &naxes;   /* `this->naxes` where a local of the same name shadows the member (R14) */
+int vp_thrown;                               /* ghost: an exception has been thrown (R7) */
+bool vp_guard_armed;                         /* the `armed` member of a local scope guard (R28) */
+void release(void); bool read_fits_core_body(fitsfile* fits); int vp_isfinite(double);
+size_t vp_sizeof_splinetable;                /* sizeof(splinetable<Alloc>): measured natively on every run */
+void* vp_new(size_t elsize, size_t n); void* vp_allocate(size_t elsize, size_t n); void vp_deallocate(void* p, size_t n);
+void  vp_copy(const void* first, const void* last, void* out);
+void  vp_fill(void* first, void* last, long value);                              /* std::fill on integers */
+void  vp_fill_null(void* first, void* last);                                     /* std::fill(first, last, nullptr) */
+void  vp_fill_n(void* first, size_t n, long value);
+void  vp_key_name(char* out, const char* prefix, long i);                        /* ostringstream: ss << prefix << i */
+void  vp_copy_reverse_long_u64(const long* a, size_t n, uint64_t* out);          /* std::copy(a.rbegin(), a.rend(), out) */
+void  vp_partial_product_long_u64(const long* first, const long* last, uint64_t* out);  /* std::partial_sum(first,last,out,multiplies<uint64_t>) */
+void  vp_reverse(void* first, void* last);                                       /* std::reverse */
+int64_t vp_product_long_i64(const long* first, const long* last);                /* std::accumulate(first,last,(int64_t)1,multiplies<int64_t>) */
+size_t strlen(const char*); int strncmp(const char*, const char*, size_t);
+int snprintf(char*, size_t, const char*, ...);
+/* cfitsio (assumed contract: specs/fitsmodel.py) */
+int fits_open_file(fitsfile** f, const char* name, int mode, int* status);
+int fits_get_num_hdus(fitsfile* f, int* n, int* status); int fits_movabs_hdu(fitsfile* f, int n, int* type, int* status);
+int fits_get_img_dim(fitsfile* f, int* naxis, int* status); int fits_get_img_size(fitsfile* f, int maxdim, long* naxes, int* status);
+int fits_get_hdrspace(fitsfile* f, int* nexist, int* nmore, int* status); int fits_read_keyn(fitsfile* f, int n, char* key, char* value, char* comm, int* status);
+int fits_read_key(fitsfile* f, int type, const char* name, void* value, char* comm, int* status);
+int fits_read_pix(fitsfile* f, int type, long* fpixel, long long nelem, void* nulval, void* array, int* anynul, int* status);
+int fits_movnam_hdu(fitsfile* f, int type, char* extname, int extver, int* status);
+int fits_create_img(fitsfile* f, int bitpix, int naxis, long* naxes, int* status);
+int fits_write_pix(fitsfile* f, int type, long* fpixel, long long nelem, void* array, int* status);
+int fits_write_key(fitsfile* f, int type, const char* name, void* value, const char* comm, int* status);
+int fits_update_key(fitsfile* f, int type, const char* name, void* value, const char* comm, int* status);
+bool reservedFitsKeyword(const char* key); uint32_t countAuxKeywords(fitsfile* fits); void readOrder(fitsfile* fits, uint32_t ndim, uint32_t* order);
+''')
+
+def replace_throws(rules, body, repl, name="R7_throw"):
+    """R7: `throw EXPR;` -> repl   (the statement is located by balanced parentheses, strings blanked)"""
+    n = 0
+    while True:
+        blank = X.blank_comments_and_strings(body)
+        m = re.search(r"(?<![A-Za-z0-9_])throw\b", blank)
+        if not m: break
+        depth = 0; j = m.end()
+        while j < len(blank):
+            ch = blank[j]
+            if ch == "(": depth += 1
+            elif ch == ")": depth -= 1
+            elif ch == ";" and depth == 0: break
+            j += 1
+        if j >= len(blank): raise ExtractionError("unterminated throw")
+        body = body[:m.start()] + repl + body[j + 1:]; n += 1
+    rules.counts[name] = rules.counts.get(name, 0) + n
+    return body
+
+def _fits_common(r, body, throw_repl):
+    body = X.strip_comments(body)
+    body = replace_throws(r, body, throw_repl)
+    body = r.sub("R25_raii_guard", r"struct fits_cleanup\{.*?\}\s*cleanup\(fits\);", "", body, flags=re.S)
+    body = r.sub("R26_ostringstream", r"std::ostringstream (\w+);\s*\1 << \"(\w+)\" << i;", r'char \1[32]; vp_key_name(\1, "\2", i);', body)
+    body = r.sub("R26_str_c_str", r"const_cast<char\*>\((\w+)\.str\(\)\.c_str\(\)\)", r"\1", body)
+    body = r.sub("R26_str_c_str", r"(\w+)\.str\(\)\.c_str\(\)", r"\1", body)
+    body = r.sub("R26_const_cast", r"const_cast<char\*>\((\"\w+\")\)", r"(char*)\1", body)
+    body = r.sub("R16_fill_null", r"std::fill\(([^;]*?),\s*nullptr\);", r"vp_fill_null(\1);", body)
+    body = r.sub("R4_nullptr", r"\bnullptr\b", "NULL", body)
+    body = r.sub("R17_allocate", r"allocate<(\w+)>\((.*?)\)(\s*[;+])", r"((\1*)vp_allocate(sizeof(\1), \2))\3", body)
+    body = r.sub("R17_deallocate", r"(?<![A-Za-z0-9_])deallocate\(", "vp_deallocate(", body)
+    body = r.sub("R16_fill", r"std::fill\(", "vp_fill(", body)
+    body = r.sub("R16_copy", r"std::copy\(", "vp_copy(", body)
+    body = X.functional_casts(r, body)
+    return body
+
+def _no_cxx_left(name, body, extra=()):
+    for bad in ("std::", "this->", "unique_ptr", "allocate<", ".size()", ".begin()", ".data()", ".get()", "throw", "ostringstream") + tuple(extra):
+        if re.search(r"(?<![A-Za-z0-9_])" + re.escape(bad), body): raise ExtractionError("%s(): unhandled C++ construct '%s' left after the rewrite rules" % (name, bad))
+
+def fits_functions():
+    s = src(FITSIO_H); out = {}
+    # --- reader
+    start, header, body, end = X.find_function(s, r"splinetable<Alloc>::read_fits_core\s*\(")
+    r = X.Rules(); r.counts["R1_member"] = 1
+    body = _fits_common(r, body, "{ vp_thrown = 1; return false; }")
+    for rule in ("R7_throw", "R26_ostringstream", "R17_allocate"):
+        if not r.counts.get(rule): raise ExtractionError("must-fire rule %s did not fire in read_fits_core" % rule)
+    body = r.sub("R20_vector_long", r"std::vector<long>\s+naxes_temp\(ndim\);", "long naxes_temp[ndim + 1];", body, must_fire=True)
+    body = r.sub("R20_vector_long_init", r"std::vector<long>\s+fpixel\(ndim,\s*1\);", "long fpixel[ndim + 1]; for (uint32_t vp_i = 0; vp_i < ndim; vp_i++) fpixel[vp_i] = 1;", body, must_fire=True)
+    body = r.sub("R16_copy_reverse", r"vp_copy\(naxes_temp\.rbegin\(\),\s*naxes_temp\.rend\(\),\s*naxes\);", "vp_copy_reverse_long_u64(naxes_temp, ndim, naxes);", body, must_fire=True)
+    body = r.sub("R16_partial_sum", r"std::partial_sum\(naxes_temp\.begin\(\),\s*naxes_temp\.end\(\)-1,\s*strides\+1,\s*std::multiplies<uint64_t>\(\)\);", "vp_partial_product_long_u64(naxes_temp, naxes_temp + ndim - 1, strides + 1);", body, must_fire=True)
+    body = r.sub("R16_reverse", r"std::reverse\(", "vp_reverse(", body, must_fire=True)
+    body = r.sub("R18_data", r"\b(naxes_temp|fpixel)\.data\(\)", r"\1", body, must_fire=True)
+    body = r.sub("R24_isfinite", r"std::isfinite\(", "vp_isfinite(", body)
+    # R28: a local scope guard `struct G{ splinetable& table; bool armed; ~G(){ if(armed) table.release(); } } guard{*this,true};`
+    # becomes a flag; the function is emitted as NAME_body and a generated wrapper runs the guard's destructor at scope exit
+    # (every return, including the early returns that stand for throws)
+    body = r.sub("R28_scope_guard", r"struct read_guard\{\s*splinetable& table;\s*bool armed;\s*~read_guard\(\)\{\s*if\(armed\)\s*table\.release\(\);\s*\}\s*\}\s*guard\{\*this,\s*true\};", "vp_guard_armed = true;", body)
+    body = r.sub("R28_guard_disarm", r"\bguard\.armed\s*=\s*false;", "vp_guard_armed = false;", body)
+    _no_cxx_left("read_fits_core", body, extra=("read_guard", "guard."))
+    if r.counts["R28_scope_guard"]:
+        out["read_fits_core"] = Extracted("read_fits_core_body", "bool read_fits_core_body(fitsfile* fits)", body, r, FITSIO_H, X.find_loops(body))
+        out["read_fits_core_wrapper"] = Extracted("read_fits_core", "bool read_fits_core(fitsfile* fits)", "{ bool vp_r = read_fits_core_body(fits); if (vp_guard_armed) release(); return vp_r; }", X.Rules(), FITSIO_H + " (generated by R28)", [])
+    else:
+        out["read_fits_core"] = Extracted("read_fits_core", "bool read_fits_core(fitsfile* fits)", body, r, FITSIO_H, X.find_loops(body))
+    # --- destructor
+    st = src(SPLINETABLE_H)
+    start, header, body, end = X.find_function(st, r"~splinetable\s*\(")
+    r = X.Rules(); r.counts["R1_member"] = 1
+    body = _fits_common(r, body, "{ vp_thrown = 1; return; }")
+    _no_cxx_left("~splinetable", body)
+    out["destructor"] = Extracted("vp_destructor", "void vp_destructor(void)", body, r, SPLINETABLE_H, X.find_loops(body))
+    try: start, header, body, end = X.find_function(st, r"void\s+release\s*\(")
+    except ExtractionError: body = None
+    if body is not None:
+        r2 = X.Rules(); r2.counts["R1_member"] = 1
+        body = _fits_common(r2, body, "{ vp_thrown = 1; return; }")
+        _no_cxx_left("release", body)
+        out["release"] = Extracted("release", "void release(void)", body, r2, SPLINETABLE_H, X.find_loops(body))
+    elif re.search(r"(?<![A-Za-z0-9_])release\(", out["destructor"].body): raise ExtractionError("~splinetable calls release() but its definition was not found")
+    # --- writer
+    start, header, body, end = X.find_function(s, r"splinetable<Alloc>::write_fits_core\s*\(")
+    r = X.Rules(); r.counts["R1_member"] = 1
+    body = _fits_common(r, body, "{ vp_thrown = 1; return; }")
+    body = r.sub("R14_this", r"this->naxes", "(*vp_this_naxes_p)", body, must_fire=True)
+    body = r.sub("R15_unique_ptr_array", r"std::unique_ptr<(\w+)\[\]>\s+(\w+)\(new \1\[(.*?)\]\);", r"\1* \2 = (\1*)vp_new(sizeof(\1), \3);", body, must_fire=True)
+    body = r.sub("R15_get", r"\.get\(\)", "", body, must_fire=True)
+    body = r.sub("R16_fill_n", r"std::fill_n\(", "vp_fill_n(", body, must_fire=True)
+    body = r.sub("R6_numeric_limits", r"std::numeric_limits<long>::max\(\)", "LONG_MAX", body, must_fire=True)
+    _no_cxx_left("write_fits_core", body)
+    out["write_fits_core"] = Extracted("write_fits_core", "void write_fits_core(fitsfile* fits)", body, r, FITSIO_H, X.find_loops(body))
+    # --- size model
+    start, header, body, end = X.find_function(s, r"splinetable<Alloc>::estimateMemory\s*\(")
+    r = X.Rules(); r.counts["R1_member"] = 1
+    body = _fits_common(r, body, "{ vp_thrown = 1; return 0; }")
+    if not r.counts.get("R25_raii_guard"): raise ExtractionError("must-fire rule R25_raii_guard did not fire in estimateMemory")
+    body = r.sub("R18_c_str", r"filePath\.c_str\(\)", "filePath", body, must_fire=True)
+    body = r.sub("R20_vector_long", r"std::vector<long>\s+naxes\(dim\);", "long naxes[dim + 1];", body, must_fire=True)
+    body = r.sub("R18_data", r"\bnaxes\.data\(\)", "naxes", body, must_fire=True)
+    body = r.sub("R16_reverse", r"std::reverse\(naxes\.begin\(\),\s*naxes\.end\(\)\)", "vp_reverse(naxes, naxes + dim)", body, must_fire=True)
+    body = r.sub("R20_vector_return", r"std::vector<uint32_t>\s+order\s*=\s*readOrder\(fits,\s*dim\);", "uint32_t order[dim + 1]; readOrder(fits, dim, order); if (vp_thrown) return 0;", body, must_fire=True)
+    body = r.sub("R27_sizeof_class", r"sizeof\(splinetable<Alloc>\)", "vp_sizeof_splinetable", body, must_fire=True)
+    body = r.sub("R16_accumulate", r"std::accumulate\(naxes\.begin\(\),\s*naxes\.end\(\),\s*\(int64_t\)1,\s*std::multiplies<int64_t>\(\)\)", "vp_product_long_i64(naxes, naxes + dim)", body, must_fire=True)
+    _no_cxx_left("estimateMemory", body)
+    out["estimateMemory"] = Extracted("estimateMemory", "size_t estimateMemory(const char* filePath, uint32_t n_convolution_knots, uint32_t convolution_dimension)", body, r, FITSIO_H, X.find_loops(body))
+    # --- helpers in fitsio.cpp
+    sc = src(FITSIO_CPP)
+    start, header, body, end = X.find_function(sc, r"std::vector<uint32_t>\s+readOrder\s*\(")
+    r = X.Rules()
+    body = _fits_common(r, body, "{ vp_thrown = 1; return; }")
+    body = r.sub("R20_vector_return", r"std::vector<uint32_t>\s+order\(ndim\);", "", body, must_fire=True)
+    body = r.sub("R20_vector_return", r"return\s*\(order\);", "return;", body, must_fire=True)
+    body = r.sub("R18_begin_end", r"order\.begin\(\)\+1,\s*order\.end\(\)", "order + 1, order + ndim", body, must_fire=True)
+    _no_cxx_left("readOrder", body)
+    out["readOrder"] = Extracted("readOrder", "void readOrder(fitsfile* fits, uint32_t ndim, uint32_t* order)", body, r, FITSIO_CPP, X.find_loops(body))
+    ca = free_function(FITSIO_CPP, "countAuxKeywords"); _no_cxx_left("countAuxKeywords", ca.body); out["countAuxKeywords"] = ca
+    rk = free_function(FITSIO_CPP, "reservedFitsKeyword"); _no_cxx_left("reservedFitsKeyword", rk.body); out["reservedFitsKeyword"] = rk
+    return out
